@@ -516,6 +516,9 @@ class PseudoNetCDFFile(PseudoNetCDFSelfReg, object):
         else:
             out = np.interp(x, xp, idx, left=np.nan, right=np.nan)
             if index:
+                # a time on the last edge belongs to the last cell; there
+                # is no cell behind it
+                out = np.where(out == idx.max(), idx.max() - 1, out)
                 out = np.ma.masked_less(np.ma.floor(out).astype('i'), 0)
 
         return out
